@@ -390,7 +390,7 @@ theorem params_total_all :
     (∀ pl fo s e sv, (lokiLabels pl fo s e sv).answered = true) ∧
     (∀ pl fo s e ne sv, (lokiValues pl fo s e ne sv).answered = true) ∧
     (∀ pl fo s e nm sv, (lokiSeries pl fo s e nm sv).answered = true) ∧
-    (∀ pl fo sv, (promLabels pl fo sv).answered = true) ∧
+    (∀ pl fo f2 sv, (promLabels pl fo f2 sv).answered = true) ∧
     (∀ pl pa ne sv s0, (promLabelValues pl pa ne sv s0).answered = true) ∧
     (∀ pl fo f2 sv, (promSeries pl fo f2 sv).answered = true) ∧
     (∀ pl, (promMetadata pl).answered = true) ∧
